@@ -262,4 +262,10 @@ def _is_unwrapped(e, raw: Set[str]) -> bool:
 
 
 def run(prog: Program, tier: str) -> List[RuleResult]:
-    return [match_table(prog), match_ops(prog), ident_dedup(prog)]
+    from .c03 import domain_cache
+
+    # pattern domains and pattern literals are variable domains: the caching iterator must not lose or skip values
+    from .c01 import ep_quant
+
+    # match_any compiles to the existential quantifier: one answer per binding of the free variables
+    return [match_table(prog), match_ops(prog), ident_dedup(prog), domain_cache(prog), ep_quant(prog)]
